@@ -16,12 +16,29 @@ import z3
 W = 16      # integer width
 LW = 6      # string length width (lengths up to 63)
 CW = 4      # character index width
-ALPH: List[str] = [" ", "%", "'", "A", "B", "\\", "_", "a", "b"]
+BASE_ALPH: List[str] = [" ", "%", "'", "A", "B", "\\", "_", "a", "b"]
+ALPH: List[str] = list(BASE_ALPH)
 IDX = {c: i for i, c in enumerate(ALPH)}
 NALPH = len(ALPH)
 SPACE, PCT, USC = IDX[" "], IDX["%"], IDX["_"]
 UPPER_OF = {IDX["a"]: IDX["A"], IDX["b"]: IDX["B"]}
 LOWER_OF = {v: k for k, v in UPPER_OF.items()}
+
+
+def set_alphabet(extra: str = "") -> None:
+    """Adaptive alphabet: extend the value alphabet for ONE program by characters the translator itself brings into
+    play (e.g. the character of an emitted ESCAPE clause).  The alphabet stays sorted by code point (index order = byte
+    order) and holds at most 15 characters (index 15 is FOREIGN).  Call set_alphabet() to restore the base alphabet."""
+    global ALPH, IDX, NALPH, SPACE, PCT, USC, UPPER_OF, LOWER_OF
+    chars = sorted(set(BASE_ALPH) | {c for c in extra if c.isascii() and c.isprintable()})
+    if len(chars) > 15:
+        chars = sorted(set(BASE_ALPH) | set(sorted(set(extra) - set(BASE_ALPH))[:15 - len(BASE_ALPH)]))
+    ALPH = chars
+    IDX = {c: i for i, c in enumerate(ALPH)}
+    NALPH = len(ALPH)
+    SPACE, PCT, USC = IDX[" "], IDX["%"], IDX["_"]
+    UPPER_OF = {IDX[lo]: IDX[lo.upper()] for lo in ALPH if lo.islower() and lo.upper() in IDX}
+    LOWER_OF = {v: k for k, v in UPPER_OF.items()}
 INT_LO, INT_HI = -8, 8
 CELL_CAP = 3
 
@@ -314,7 +331,8 @@ def s_upper(x: StrV) -> StrV:
     return s_map(x, UPPER_OF)
 
 
-def s_ltrim(x: StrV, ch: int = SPACE) -> StrV:
+def s_ltrim(x: StrV, ch: Optional[int] = None) -> StrV:
+    ch = SPACE if ch is None else ch
     # n = number of leading `ch`
     n = bv(x.cap)
     for k in reversed(range(x.cap)):
@@ -324,7 +342,8 @@ def s_ltrim(x: StrV, ch: int = SPACE) -> StrV:
     return s_slice(x, n, len_w(x))
 
 
-def s_rtrim(x: StrV, ch: int = SPACE) -> StrV:
+def s_rtrim(x: StrV, ch: Optional[int] = None) -> StrV:
+    ch = SPACE if ch is None else ch
     # new length = 1 + index of the last character that is not `ch`
     nl = lv(0)
     for k in range(x.cap):
